@@ -138,3 +138,62 @@ package protocol
 //@   props C03
 //@   witness src = "a=b; SameSite="
 //@   modifies *
+
+// ---- C05: header serialisation cannot be used to inject lines ----
+
+//@ func newlineToSpace(val) r
+//@   props C05, C03
+//@   allocates
+//@   top-ensures len(r) == len(val) && fresh(r) && forall(k, 0, len(r), r[k] != '\r' && r[k] != '\n')
+//@   loop 0:
+//@     invariant 0 <= i && i <= len(filteredVal) && len(filteredVal) == len(val) && fresh(filteredVal)
+//@     invariant forall(k, 0, i, filteredVal[k] != '\r' && filteredVal[k] != '\n')
+
+// appendHeaderLine appends nothing (invalid field name) or exactly one line "key: value CRLF" whose
+// only CR and LF bytes are the two terminator bytes it writes itself.
+//@ func appendHeaderLine(dst, key, value) r
+//@   props C05, C03
+//@   alias dst
+//@   modifies spare(dst)
+//@   allocates
+//@   ensures extends(r, dst) && spareOnly(dst)
+//@   top-ensures len(r) == len(dst) || (len(r) == len(dst) + len(key) + len(value) + 4 && r[len(r)-2] == '\r' && r[len(r)-1] == '\n' && forall(k, len(dst), len(r) - 2, r[k] != '\r' && r[k] != '\n'))
+//@   loop 0:
+//@     invariant -1 <= rangeindex
+//@     invariant forall(k, 0, rangeindex + 1, key[k] != '\r' && key[k] != '\n')
+
+//@ extern consts.StatusLine(statusCode) r
+//@   allocates
+//@   ensures len(r) >= 2 && r[len(r)-2] == '\r' && r[len(r)-1] == '\n' && forall(k, 0, len(r) - 2, r[k] != '\r' && r[k] != '\n')
+
+//@ func ResponseHeader.AppendBytes(h, dst) r
+//@   props C05, C03
+//@   crlf-discipline
+//@   crlf-exempt consts.StatusLine
+//@   modifies *
+
+// appendRequestCookieBytes copies application bytes verbatim; its only caller on the serialisation
+// path hands the result to appendHeaderLine as a value, which neutralises CR and LF.
+//@ func appendRequestCookieBytes(dst, cookies) r
+//@   props C03, C05
+//@   appends-raw
+//@   modifies mem
+//@   allocates
+
+//@ func RequestHeader.AppendBytes(h, dst) r
+//@   props C05, C03
+//@   replay-go var h RequestHeader; h.SetCookie("a", "b\r\nX: 1"); if bytes.Contains(h.Header(), []byte("\r\nX: 1\r\n")) { fmt.Println("VCGO-VIOLATED request Cookie line carries an injected header line") }
+//@   crlf-discipline
+//@   crlf-exempt h.Method()
+//@   crlf-exempt h.RequestURI()
+//@   modifies *
+
+//@ func Trailer.GetBytes(t) r
+//@   props C03
+//@   modifies mem
+//@   allocates
+
+//@ func Trailer.AppendBytes(t, dst) r
+//@   props C05, C03
+//@   crlf-discipline
+//@   modifies *
